@@ -51,6 +51,19 @@ func main() {
 		byConn := map[int]*expect{}
 		var wg sync.WaitGroup
 		start := make(chan struct{})
+		// Every fourth round runs next to *heavy neighbours*: two HTTP/2 connections that have sent 40 000 legal
+		// PRIORITY frames each (and one request, which proves the server has taken them in) and stay open for
+		// the whole round. What another connection holds must not change this connection's value (after seeded
+		// change C06-K: a process-wide budget for recorded priority entries).
+		var heavies []*h2fp.Conn
+		if round%4 == 2 {
+			for k := 0; k < 2; k++ {
+				if hc := heavyNeighbour(run, px, round, k); hc != nil {
+					heavies = append(heavies, hc)
+				}
+			}
+			run.Add("rounds_next_to_heavy_neighbours", 1)
+		}
 		for ci := 0; ci < N; ci++ {
 			wg.Add(1)
 			go func(ci int) {
@@ -61,6 +74,9 @@ func main() {
 		}
 		close(start)
 		wg.Wait()
+		for _, hc := range heavies {
+			hc.Close()
+		}
 		// judge this round
 		allJA3 := map[string]int{}
 		allJA4 := map[string]int{}
@@ -127,6 +143,39 @@ func main() {
 	run.Require("requests_judged_http/1.1", 300)
 	run.Assume("requests whose connection was cut by the client before the response are not judged; the expected values come from the bytes each client wrote (internal/hello references) and from its own frame history (internal/ref Akamai reference)")
 	run.Finish()
+}
+
+// heavyNeighbour opens an HTTP/2 connection that sends 40 000 PRIORITY frames and one request, and leaves it open.
+func heavyNeighbour(run *verdict.Run, px *rig.Proxy, round, k int) *h2fp.Conn {
+	c, err := h2fp.Dial(px.Addr, nil, nil)
+	if err != nil {
+		run.Add("heavy_neighbour_failed", 1)
+		return nil
+	}
+	c.Settings([][2]uint32{{3, 100}, {4, 65535}})
+	for i := 0; i < 40000; i++ {
+		if err := c.Priority(uint32(200001+2*(i%30000)), 0, i%2 == 0, uint8(i)); err != nil {
+			run.Add("heavy_neighbour_failed", 1)
+			c.Close()
+			return nil
+		}
+	}
+	sid := c.Next
+	c.Next += 2
+	f := h2fp.PseudoOrder(k, "front.example", "/c06-heavy", "GET")
+	f = append(f, hpack.HeaderField{Name: strings.ToLower(rig.TagHeader), Value: fmt.Sprintf("C06-%d-%d-heavy-%d", run.Seed, round, k)})
+	if _, err := c.Headers(sid, f, nil, 0, true, run.Rand(int64(round*7+k))); err != nil {
+		run.Add("heavy_neighbour_failed", 1)
+		c.Close()
+		return nil
+	}
+	if _, ok := c.Peer.WaitResponse(sid, 60*time.Second); !ok {
+		run.Add("heavy_neighbour_failed", 1)
+		c.Close()
+		return nil
+	}
+	run.Add("heavy_neighbour_priority_frames_taken_in", 40000)
+	return c
 }
 
 func client(run *verdict.Run, px *rig.Proxy, round, ci int, mu *sync.Mutex, want map[string]*expect, byConn map[int]*expect) {
